@@ -142,3 +142,99 @@ pub fn run_status(body: &[Sexp]) -> String {
 /// the Stream / Future traits are used through their methods only
 #[allow(dead_code)]
 fn _traits(_: Pin<&mut dyn Stream<Item = ()>>, _: Pin<&mut dyn Future<Output = ()>>) {}
+
+/// (status2 N (script EV...)): complete_status() above take(N) - an operator that finishes early - over a create() source
+/// that plays the script; the status must follow the SOURCE's terminal, whatever the downstream did before
+pub fn run_status2(body: &[Sexp]) -> String {
+  let n = body[0].usize();
+  let evs: Vec<Ev> = body[1].args().iter().map(Ev::parse).collect();
+  let src = observable::create(move |mut s: SubscriberThreads<_>| {
+    for e in evs {
+      match e {
+        Ev::Next(v) => s.next(v),
+        Ev::Err(x) => s.clone().error(x),
+        Ev::Done => s.clone().complete(),
+      }
+    }
+  });
+  let (obs, status) = src.complete_status();
+  let _sub = obs.take(n).on_error(|_: i64| {}).subscribe(|_: Val| {});
+  format!(
+    "(flags {} {} {})",
+    if status.is_closed() { "#t" } else { "#f" },
+    if status.is_completed() { "#t" } else { "#f" },
+    if status.error_occur() { "#t" } else { "#f" }
+  )
+}
+
+thread_local! {
+  /// what the consumer task does when it is woken
+  static ON_WAKE: std::cell::RefCell<Option<Box<dyn FnMut()>>> = std::cell::RefCell::new(None);
+}
+
+fn waking_waker() -> std::task::Waker {
+  use std::task::{RawWaker, RawWakerVTable, Waker};
+  fn clone(_: *const ()) -> RawWaker {
+    RawWaker::new(std::ptr::null(), &VTABLE)
+  }
+  fn noop(_: *const ()) {}
+  fn wake(_: *const ()) {
+    // run the consumer now (the producer is in the middle of its call); a wake during the consumer's own polling is ignored
+    let f = ON_WAKE.with(|w| w.borrow_mut().take());
+    if let Some(mut f) = f {
+      f();
+      ON_WAKE.with(|w| *w.borrow_mut() = Some(f));
+    }
+  }
+  static VTABLE: RawWakerVTable = RawWakerVTable::new(clone, wake, wake, noop);
+  unsafe { Waker::from_raw(RawWaker::new(std::ptr::null(), &VTABLE)) }
+}
+
+/// (tostream_wake (labels L...)): the consumer is a task that, whenever it is woken, polls the stream until it answers
+/// Pending or ends - also when the wake-up comes in the middle of a call of the producer (error() sends two messages)
+pub fn run_tostream_wake(body: &[Sexp]) -> String {
+  use std::cell::RefCell;
+  use std::rc::Rc;
+  let subject: Subject<'static, Val, i64> = Subject::default();
+  let st = Rc::new(RefCell::new(Box::pin(subject.clone().to_stream())));
+  let out: Rc<RefCell<Vec<String>>> = Rc::default();
+  let finished = Rc::new(std::cell::Cell::new(false));
+  let drain = {
+    let (st, out, finished) = (st.clone(), out.clone(), finished.clone());
+    move || {
+      let waker = waking_waker();
+      while !finished.get() {
+        let mut cx = Context::from_waker(&waker);
+        let r = st.borrow_mut().as_mut().poll_next(&mut cx);
+        match r {
+          std::task::Poll::Pending => {
+            out.borrow_mut().push("pending".into());
+            break;
+          }
+          std::task::Poll::Ready(Some(Ok(v))) => out.borrow_mut().push(format!("(item {})", showv(&v))),
+          std::task::Poll::Ready(Some(Err(e))) => out.borrow_mut().push(format!("(erritem {e})")),
+          std::task::Poll::Ready(None) => {
+            out.borrow_mut().push("end".into());
+            finished.set(true);
+          }
+        }
+      }
+    }
+  };
+  ON_WAKE.with(|w| *w.borrow_mut() = Some(Box::new(drain.clone())));
+  let mut drain = drain;
+  for l in body[0].args() {
+    match l {
+      Sexp::Atom(a) if a == "poll" => {
+        // an explicit poll runs with the wake-up handler parked, as the task would be running
+        let f = ON_WAKE.with(|w| w.borrow_mut().take());
+        drain();
+        ON_WAKE.with(|w| *w.borrow_mut() = f);
+      }
+      _ => emit(&subject, Ev::parse(l)),
+    }
+  }
+  ON_WAKE.with(|w| *w.borrow_mut() = None);
+  let r = out.borrow().join(" ");
+  r
+}
